@@ -276,10 +276,11 @@ func (c *EWCase) Run() string {
 					v = undef
 				}
 			}
-			if isUndef(v) {
-				hasUndef = true
+			masked := (c.A.Mask != nil && c.A.Mask[k]) || (c.B != nil && c.B.Mask != nil && c.B.Mask[k])
+			if isUndef(v) && !masked {
+				hasUndef = true // (a zero divisor hidden under the mask is not operated on: no error is due for it)
 			}
-			if (c.A.Mask != nil && c.A.Mask[k]) || (c.B != nil && c.B.Mask != nil && c.B.Mask[k]) {
+			if masked {
 				v = maskedOut // nothing is stated about positions that are masked in an operand
 			}
 			exp[k] = v
